@@ -175,6 +175,22 @@ PROPS = {
         "level_text": "Exploration by generated histories. failure-with-error iff the probe failed, success otherwise together with the entitlements, published list = server content after a successful sync, child entries at the parent, entries of removed parents/children/CAs gone, identical views across restart. Sampling, not proof.",
         "level_note": "Trusted base: the probe calls (ca_sync_parent, cas_repo_sync_single) are krill's own synchronisation entry points; their Ok/Err is taken as the outcome of the exchange.",
     },
+    "C20": {
+        "level": "exploration",
+        "cases": {"quick": 480, "thorough": 9600},
+        "rule": "cases = generated (authentication mode, 1-4 configured users with names from a pool of look-alikes - alice, Alice, 'alice ', ' alice', full-width alice, bob, fiona with and without the fi ligature - passwords from a pool with whitespace / case / compatibility variants, "
+        "roles from five definitions incl. one without the login right and one scoped to a CA; optional mapping of the socket peer to a role; 6-24 steps) run against the real daemon started in-process with a Unix socket and a plain TCP listener. Steps: login attempts as configured and pool names with right and other passwords, "
+        "and uses of a credential (none, the admin token, eight kinds of alteration of it, a session token obtained earlier, alterations of it: truncation, character change, case change, appended character, padding removed, URL-safe re-encoding, a bit flipped under the base64; a token issued by a second instance with the same users; arbitrary strings) over either transport. "
+        "Each use is five requests to routes that need different permissions; distinct by hash of the case JSON; non-trivial iff a genuine session token was used and an altered or foreign one was refused",
+        "floors": {"__nontrivial__": 0.35, "login_ok": 0.50, "altered_session_token_refused": 0.35, "altered_admin_token_refused": 0.50, "session_token": 0.35, "socket_peer_identity": 0.10, "foreign_token_refused": 0.05},
+        "assumptions": ["the daemon is krill's start_krill_daemon running in the worker process; requests are hand-written HTTP/1.1 over the Unix socket and over TCP without TLS (https_mode disable)",
+                        "a password matches if it is equal after trimming and NFKC normalisation (documented behaviour of krillc config user and the UI); user names must match the configured key exactly",
+                        "which identity a request acted as is read from which of five routes with different permission needs were served (not 401/403)"],
+        "technique": "property-based testing against the running daemon with an explicit identity oracle (admin token verbatim -> admin; session token issued by this instance -> that user's configured role; otherwise the role mapped to the socket peer on the Unix transport; otherwise nobody) and generated credential mutations; "
+        "login oracle: success iff the name is a configured key, the password matches and the role may log in, and the session then acts with exactly that user's role",
+        "level_text": "Exploration by generated configurations, logins and credential mutations against the real HTTP stack. Sampling, not proof.",
+        "level_note": "Trusted base: the harness HTTP client; scrypt parameters copied from krillc config user.",
+    },
     "C17": {
         "level": "exploration",
         "cases": {"quick": 200000, "thorough": 4000000},
